@@ -57,3 +57,19 @@ Theorem C05_signed_text_injective : forall msg msg' attr attr' k k' : bytes,
   (length attr = length attr' -> msg ++ attr ++ k = msg ++ attr' ++ k -> attr = attr') /\
   (msg ++ attr ++ k = msg ++ attr ++ k' -> k = k').
 Proof. exact signed_text_injective. Qed.
+
+(* the complete list: for every accepted bundle the (key, message) pairs the aggregate signature must
+   verify are exactly, in condition order over the spends in order, one pair per AGG_SIG condition:
+   (key, message) for AGG_SIG_UNSAFE and (key, message ++ attributes ++ constant) for the seven bound
+   opcodes — nothing missing, nothing extra (with signature checking off the list is empty) *)
+From ChiaV.Cond Require Import Invariants Syntax Collect Summary.
+Theorem C05_pairs_exactly_the_prescribed_ones : forall vk H K fl V t max_cost clvm_cost b spends pairs,
+  parse_spends vk H K fl V t max_cost clvm_cost = Ok (b, spends, pairs) ->
+  exists ps, tree_syntax fl t = Ok ps /\
+    pairs = (if f_dont_validate fl then []
+             else flat_map (fun p => flat_map (c_pair K (spend0 H p)) (kn p)) ps).
+Proof.
+  intros vk H K fl V t max_cost clvm_cost b spends pairs Hp.
+  destruct (accepted_summary vk H K fl V t max_cost clvm_cost b spends pairs Hp) as [ps [Hs [_ [_ [_ [_ [_ [_ [_ [_ [_ Hpairs]]]]]]]]]]].
+  exists ps. split; [exact Hs|exact Hpairs].
+Qed.
